@@ -8,8 +8,8 @@
 Mutations live in /tmp/mut/out/<prop>/mut{A,B}.diff (+ demo{A,B}.c)."""
 import os, sys, json, subprocess, glob, re, shutil, time
 
-SRC = '/tmp/mut/out'
-WT = '/tmp/mut/eval'
+SRC = os.environ.get('SEED_SRC', '/tmp/mut/out')
+WT = os.environ.get('SEED_WT', '/tmp/mut/eval')
 INC = ['Lib/core', 'Lib/core/public', 'Lib/core/fs', 'Lib/core/poll', 'Lib/utils', 'Lib/structs', 'Lib/structs/public',
        'Lib/mem', 'Lib/mem/public', 'Lib/thpool', 'Lib/thpool/public']
 LIBC = ['Lib/core/*.c', 'Lib/core/fs/fs_noop.c', 'Lib/core/poll/epoll.c', 'Lib/core/poll/cmn_linux.c', 'Lib/utils/*.c',
